@@ -22,6 +22,11 @@ def gen_history(seed, tier, cache=False, nsteps=(2, 6), multi_out_p=0.25, tpl_p=
         spec["config"]["dircompress"] = rng.chance(0.3)   # the default (hard-linked, xattrs travel with the inode) is sampled most
         spec["config"]["cache_workers"] = rng.choice([0, 0, 2])
     req = pick_request(rng, spec)
+    ro = Rng(subseed(seed, "optlog"))
+    for _, t in rs.all_targets(spec):
+        if t["kind"] == "genrule" and t.get("dir") is None and ro.chance(0.3 if cache else 0.15):
+            t["optlog"] = True
+            t["optional_outs"] = ["*.optlog"]
     reedit = None
     if rng.chance(0.3):
         # a source file that reaches a command only through a filegroup, edited several times in a row
@@ -51,7 +56,11 @@ def gen_history(seed, tier, cache=False, nsteps=(2, 6), multi_out_p=0.25, tpl_p=
             k = rng.intn(len(states) - 1)
             cur = rs.clone(states[k])
             states.append(rs.clone(cur))
-            steps.append({"kind": "edit", "desc": "revert to state %d" % k, "state": len(states) - 1})
+            if rng.chance(0.35):
+                # (the way back with plz-out gone: everything comes from the cache, nothing lingers)
+                steps.append({"kind": "rm-plz-out", "desc": "rm -rf plz-out and revert to state %d" % k, "state": len(states) - 1})
+            else:
+                steps.append({"kind": "edit", "desc": "revert to state %d" % k, "state": len(states) - 1})
             continue
         if aba:
             r = 50 + rng.intn(50)    # an edit, not a deletion
@@ -594,12 +603,19 @@ def replay_c32(bindir, rp):
 ENV_POOL = ["PV_A", "PV_B", "CV_A", "UV_A", "OTHER_1", "OTHER_2", "LANG", "EDITOR", "LC_ALL_X", "PYTHONPATH"]
 
 
+C10_PATH = "/usr/local/bin:/usr/bin:/bin"
+
+
 def gen_case_c10(seed, tier):
     rng = Rng(seed)
     spec = rs.new_spec()
     spec["config"]["passenv"] = ["CV_A"] if rng.chance(0.6) else []
     spec["config"]["passunsafeenv"] = ["UV_A"] if rng.chance(0.6) else []
     spec["config"]["hash"] = rng.choice(HASHES)
+    path_case = Rng(subseed(seed, "path")).chance(0.35)
+    if path_case:
+        # the commonest variable to pass through: the invoking shell's PATH
+        spec["config"]["passenv"] = spec["config"]["passenv"] + ["PATH"]
     spec["pkgs"]["e"] = {"files": {"s.txt": "src\n"}, "targets": [], "use_defs": False}
     n = rng.rng(2, 4)
     for i in range(n):
@@ -621,7 +637,13 @@ def gen_case_c10(seed, tier):
             steps.append({"var": v, "value": None})
         else:
             steps.append({"var": v, "value": "canary-%s-%d-%d" % (v.lower(), j + 1, rng.intn(100000))})
-    return {"spec": spec, "env": env, "steps": steps, "seed": seed, "threads": rng.choice([1, 4])}
+    threads = rng.choice([1, 4])
+    rp = Rng(subseed(seed, "path-steps"))
+    if path_case or rp.chance(0.2):
+        env["PATH"] = C10_PATH
+        for j in range(rp.rng(1, 2)):
+            steps.insert(rp.intn(len(steps) + 1), {"var": "PATH", "value": C10_PATH + ":/opt/canary-path-%d-%d" % (j, rp.intn(100000))})
+    return {"spec": spec, "env": env, "steps": steps, "seed": seed, "threads": threads}
 
 
 def env_section(path):
@@ -673,6 +695,12 @@ def exec_case_c10(bindir, case):
                 raw = "\n".join(env_section(os.path.join(w.repo, "plz-out/gen/e", t["outs"][0])) or [])
                 allowed = set(t["pass_env"]) | cfg_pass | cfg_unsafe
                 for v, val in env.items():
+                    if v == "PATH":
+                        # the configured build path equals the base of the invoking PATH; only the canary
+                        # directory appended to it identifies the invoking shell's value
+                        if "canary" not in val:
+                            continue
+                        val = val.split(":")[-1]
                     if v not in allowed and val in raw:
                         out.append(("env-leak", "%s: the build environment of %s contains the invoking shell's value of %s (%s), which is in no pass_env list" % (when, lab, v, val), None))
                         return
@@ -680,6 +708,8 @@ def exec_case_c10(bindir, case):
                 for v in sorted(set(t["pass_env"]) | cfg_pass):
                     want = env.get(v)
                     got = d.get(v)
+                    if v == "PATH" and want is not None and got is not None and got.endswith(want):
+                        continue    # plz puts its own location in front of a passed PATH
                     if want is not None and got != want:
                         out.append(("pass-env-stale", "%s: %s lists %s in pass_env (target or config); the invoking value is %r but the built output records %r" % (when, lab, v, want, got), None))
                         return
